@@ -38,7 +38,7 @@ FL_i8    := -O1 -DBUGSENG_PPL_VERIF
 FL_i16   := -O1 -DBUGSENG_PPL_VERIF
 FL_i32   := -O1 -DBUGSENG_PPL_VERIF
 FL_i64   := -O1 -DBUGSENG_PPL_VERIF
-FL_fuzz  := -O1 -DBUGSENG_PPL_VERIF -fsanitize=fuzzer-no-link,address,undefined -fno-sanitize=pointer-overflow -fno-sanitize-recover=undefined -Wno-unknown-warning-option -Wno-ignored-optimization-argument
+FL_fuzz  := -O1 -DBUGSENG_PPL_VERIF -fsanitize=fuzzer-no-link,address,undefined -fno-sanitize=pointer-overflow,enum -fno-sanitize-recover=undefined -Wno-unknown-warning-option -Wno-ignored-optimization-argument
 FLAGS    := $(COMMON) $(FL_$(FLV))
 
 LDX_dbg  :=
